@@ -273,6 +273,9 @@ def apply_fn_item(e, st, f, x):
         assigns0 = [st_ for b in blocks for st_ in b.stmts if st_.kind == 'assign' and st_.place.local == 0]
         if not calls and body.ret_type.strip() == '()' and all(a.rv.kind in ('tuple', 'use') for a in assigns0):
             return UNIT
+        if hasattr(e, 'sys') and hasattr(e.sys, 'call_closure_sync'):
+            # any other closure: run its MIR body to completion (must not fork)
+            return e.sys.call_closure_sync(st, f, [x])
     raise Unsupported(f"apply fn item {txt[:80]!r}")
 
 
